@@ -263,6 +263,19 @@ static void layout_item(long i)
     layout_size((long) n);
 }
 
+/* isolated large sizes (every byte of the region must carry the fill, the layout rules are the same): an allocator may treat sizes above a
+ * threshold differently */
+static const size_t BIGSZ[] = { 65536, 65537, 1048576, 2097151, 2097152, 2097153, 3145735, 4194304 + 5, 16777216 + 9, 67108864 + 1 };
+static void layout_big(long i) { layout_size((long) BIGSZ[i]); }
+static void allocarray_big(long i)
+{
+    static const size_t CNT[4] = { 3, 1025, 65537, 1 }; size_t cnt = CNT[i & 3], sz = BIGSZ[(i >> 2) % 10] / cnt + 1, k; unsigned char *p = sodium_allocarray(cnt, sz); char key[96];
+    snprintf(key, sizeof key, "sodium_allocarray/count=%zu/size=%zu", cnt, sz); n_eval++; n_nontriv++;
+    if (!p) { vf_fail(key, "returned NULL (errno %d)", errno); return; }
+    for (k = 0; k < cnt * sz; k++) if (p[k] != 0xdb) { vf_fail(key, "byte %zu is %02x, not the 0xdb fill", k, p[k]); break; }
+    p[0] = 1; p[cnt * sz - 1] = 2; sodium_free(p);
+}
+
 int main(void)
 {
     vf_init_seed(); thorough = vf_tier_thorough();
@@ -273,6 +286,8 @@ int main(void)
     vf_parallel(16, 0, (long) ((thorough ? 8 : 3) * PG + 2), layout_item, fin);
     vf_parallel(12, 0, 12, protect_size, fin);
     vf_parallel(16, 0, 16, canary_structured, fin);
+    vf_parallel(10, 0, 10, layout_big, fin);
+    vf_parallel(16, 0, 40, allocarray_big, fin);
     limits(); fin();
     vf_sample("sodium_malloc(4080): user region = last 4080 bytes of one page, p+4080 is the first byte of a PROT_NONE page (kernel probe: pwrite from it -> EFAULT)");
     vf_sample("sodium_malloc(4081): region grows to two pages; canary at p-16..p-1; each canary byte altered in a forked child -> sodium_free must die by signal");
